@@ -114,9 +114,9 @@ def shapes(sk, lo, span, *xs):
         lo = 0
         hi = sk["S"]
         f = Fiber(cs, vs, shape=hi)
-    elif mode in ("activeShape", "activeShapeRef", "iter_U"):
+    elif mode in ("activeShape", "activeShapeRef", "iter_U", "iter_U_sp"):
         f = Fiber(cs, vs, active_range=(lo, hi))
-        if mode == "iter_U":
+        if mode in ("iter_U", "iter_U_sp"):
             f.getRankAttrs().setFormat("U")
     else:
         f = Fiber(cs, vs)
@@ -139,6 +139,8 @@ def shapes(sk, lo, span, *xs):
         it = f.iterActiveShape()
     elif mode == "activeShapeRef":
         it = f.iterActiveShapeRef()
+    elif mode == "iter_U_sp":
+        it = f.__iter__(start_pos=0)       # a (trivially valid) search shortcut does not change what default iteration of a 'U' rank yields
     else:
         it = iter(f)
     got = [(c, p) for c, p in it]
@@ -308,8 +310,11 @@ def coiter(sk, lo, span, *xs):
     elif form == "active":
         # coiterActiveShape(Ref): the active range of the *first* fiber
         a, b = Fiber(ac, av, shape=hi + 1, active_range=(lo, hi)), Fiber(bc, bv, shape=hi + 3)
+    elif sk.get("bdef"):
+        a, b = Fiber(ac, av), Fiber(bc, bv, default=sk["bdef"])      # each fiber's *own* default stands in for the coordinates it lacks
     else:
         a, b = Fiber(ac, av), Fiber(bc, bv)
+    bdef = sk.get("bdef", 0)
     sa, sb = raw(a), raw(b)
     if form == "shape":
         z = Fiber.coiterShapeRef([a, b]) if ref else Fiber.coiterShape([a, b])
@@ -324,7 +329,7 @@ def coiter(sk, lo, span, *xs):
     for k, c in enumerate(want):
         if got[k][0] != c:
             return fail("coordinate")
-        va = vb = 0
+        va, vb = 0, bdef
         for i in range(na):
             if ac[i] == c:
                 va = av[i]
@@ -364,10 +369,10 @@ def obligations(tier):
                 p2 += ["lo <= hi"]
             obs.append(Ob("ranges/%s/%d" % (mode, n), "ranges", dict(n=n, mode=mode), base + extra, p2))
         if n <= (2 if q else 3):
-            for mode in ("rangeShape", "rangeShapeRef", "activeShape", "activeShapeRef", "iter_U"):
+            for mode in ("rangeShape", "rangeShapeRef", "activeShape", "activeShapeRef", "iter_U", "iter_U_sp"):
                 for step in ((1, 2) if mode.startswith("range") else (1,)):
                     p2 = pre + ["0 <= span <= %d" % (4 if q else 5)]
-                    if mode in ("activeShape", "activeShapeRef", "iter_U"):
+                    if mode in ("activeShape", "activeShapeRef", "iter_U", "iter_U_sp"):
                         p2 += ["lo <= %s < lo + span" % c for c in cn]
                     obs.append(Ob("shapes/%s/%d/step%d" % (mode, n, step), "shapes", dict(n=n, mode=mode, step=step), ["lo", "span"] + base, p2))
                     if n == 2 and step == 1 and mode in ("rangeShapeRef", "activeShapeRef", "rangeShape"):
@@ -406,6 +411,9 @@ def obligations(tier):
             for step in (1, 2):
                 obs.append(Ob("coiter/%s/%dx%d/step%d" % ("ref" if ref else "noref", na, nb, step), "coiter",
                               dict(na=na, nb=nb, ref=ref, step=step), ["lo", "span"] + base, pre))
+                if step == 1 and (na, nb) == (1, 1):
+                    obs.append(Ob("coiter/%s/%dx%d/step%d/default5" % ("ref" if ref else "noref", na, nb, step), "coiter",
+                                  dict(na=na, nb=nb, ref=ref, step=step, bdef=5), ["lo", "span"] + base, pre))
             if (na, nb) != (2, 2):
                 inb = ["0 <= %s" % c for c in an + bn]
                 obs.append(Ob("coiter-shape/%s/%dx%d" % ("ref" if ref else "noref", na, nb), "coiter",
